@@ -11,7 +11,9 @@
 #include "celma/log/detail/log_msg.hpp"
 #include "celma/log/filename/creator.hpp"
 #include "celma/log/filename/definition.hpp"
+#include "celma/log/detail/i_format_stream.hpp"
 #include "celma/log/files/counted.hpp"
+#include "celma/log/files/handler.hpp"
 #include "celma/log/files/max_size.hpp"
 
 #include "../sim/budget.hpp"
@@ -36,13 +38,25 @@ enum ProbeId { P_rollover, P_rollover_all_generations_present, P_restart_on_empt
                P_restart_on_full, P_crash_in_write_call, P_crash_between_close_and_first_rename, P_crash_between_renames,
                P_crash_after_last_rename_before_open, P_crash_at_open, P_crash_outside_roll, P_torn_tail_glued,
                P_inflight_complete_after_crash, P_inflight_absent_after_crash, P_directory_created_by_policy,
-               P_max_gen_one, P_oversized_message, P_recovery_rolled_twice, P_degraded_window, P_exception_under_fault };
+               P_max_gen_one, P_oversized_message, P_recovery_rolled_twice, P_degraded_window, P_exception_under_fault, P_files_handler_wrapper };
 const char* const kProbeNames[] = { "rollover", "rollover_with_all_generations_present", "restart_on_empty_generation0",
                "restart_on_partly_filled_generation0", "restart_on_full_generation0", "crash_in_write_call",
                "crash_between_close_and_first_rename", "crash_between_two_renames", "crash_after_last_rename_before_open",
                "crash_at_open", "crash_outside_rollover", "torn_tail_glued_to_next_line", "inflight_message_complete_after_crash",
                "inflight_message_absent_after_crash", "directory_created_by_policy", "max_gen_one", "oversized_single_message",
-               "recovery_rolled_twice", "degraded_window_after_io_error", "exception_under_fault" };
+               "recovery_rolled_twice", "degraded_window_after_io_error", "exception_under_fault",
+               "through_files_handler_wrapper" };
+
+/// formatter for the files::Handler wrapper: the message text as it is (the
+/// default formatter adds fields and a line end of its own)
+class PlainFormat final: public celma::log::detail::IFormatStream
+{
+private:
+   void format( std::ostream& out, const celma::log::detail::LogMsg& msg) const override
+   {
+      out << msg.getText();
+   }
+};
 
 struct Msg
 {
@@ -72,6 +86,9 @@ struct Run
 
    std::vector< Msg>  msgs;
    std::unique_ptr< celma::log::files::PolicyBase>  policy;
+   /// wrapper mode: the policy is owned by a files::Handler<P> log destination
+   std::unique_ptr< celma::log::detail::ILogDest>   wrapped;
+   bool             wrapper = false;
    bool             degraded = false;
    int              rolls_seen = 0;
    int              restarts_seen = 0;
@@ -131,6 +148,44 @@ struct Run
       if (counted)
          return new celma::log::files::Counted( makeDefinition(), limit, max_gen);
       return new celma::log::files::MaxSize( makeDefinition(), limit, max_gen);
+   }
+
+   bool isOpen() const { return policy != nullptr || wrapped != nullptr; }
+
+   void closeSink()
+   {
+      policy.reset();
+      wrapped.reset();
+   }
+
+   /// constructs the policy (and the wrapper) and opens the log file
+   void openSink()
+   {
+      namespace lf = celma::log::files;
+      if (!wrapper)
+      {
+         policy.reset( makePolicy());
+         policy->open();
+         return;
+      }
+      // the constructor of the handler opens the file
+      if (counted)
+         wrapped.reset( new lf::Handler< lf::Counted>( new lf::Counted( makeDefinition(), limit, max_gen)));
+      else
+         wrapped.reset( new lf::Handler< lf::MaxSize>( new lf::MaxSize( makeDefinition(), limit, max_gen)));
+      wrapped->setFormatter( new PlainFormat());
+   }
+
+   void writeSink( const std::string& text, int line_nbr)
+   {
+      celma::log::detail::LogMsg  lm( "c15.cpp", "harness", line_nbr);
+      if (!wrapper)
+      {
+         policy->writeMessage( lm, text);
+         return;
+      }
+      lm.setText( text);
+      wrapped->handleMessage( lm);
    }
 
    Files snapshot( std::vector< std::string>* strays = nullptr) const
@@ -583,9 +638,9 @@ struct Run
    /// (re)start: destroy the policy object, construct a new one, open
    bool restart( const std::vector< fs::Fault>& faults, fs::OpReport& rep, std::string& what, bool& threw)
    {
-      policy.reset();
+      closeSink();
       fs::opBegin( faults);
-      ExecResult  er = guarded( [ this] { policy.reset( makePolicy()); policy->open(); }, what);
+      ExecResult  er = guarded( [ this] { openSink(); }, what);
       rep = fs::opEnd();
       threw = (er == exThrew);
       return er != exAbandoned;
@@ -605,7 +660,7 @@ struct Run
       for (auto const& kv : at_crash)
          if (!kv.second.empty() && kv.second.back() != '\n') ++torn_fragments;
       // the dead process' objects cannot touch the frozen disk
-      policy.reset();
+      closeSink();
       fs::thaw();
       fs::pidSet( 4242 + static_cast< int>( msgs.size()) + 1);
       fs::OpReport  rep;
@@ -641,6 +696,8 @@ struct Run
       width = static_cast< int>( std::max< long long>( 0, std::min< long long>( 6, nm.geti( "width", 0))));
       name_variant = static_cast< int>( nm.geti( "variant", 0));
       precreate = nm.geti( "precreate", 1) != 0;
+      wrapper = plan.geti( "wrapper", 0) != 0;
+      if (wrapper) st.probe( P_files_handler_wrapper);
       if (max_gen == 1) st.probe( P_max_gen_one);
 
       fs::reset();
@@ -764,14 +821,14 @@ struct Run
          msgs.push_back( m);
          Msg&  cur = msgs.back();
          log( when + " '" + cur.text + "'");
-         if (policy == nullptr)
+         if (!isOpen())
          {
-            res.fail( "BADPLAN", "plan", "write without an open policy");
-            return;
+            // the very first open failed under an injected fault: nothing to write to
+            cur.may_be_missing = true;
+            continue;
          }
-         celma::log::detail::LogMsg  lm( "c15.cpp", "harness", static_cast< int>( oi));
          fs::opBegin( faults);
-         ExecResult  er = guarded( [ &] { policy->writeMessage( lm, cur.text); }, what);
+         ExecResult  er = guarded( [ &] { writeSink( cur.text, static_cast< int>( oi)); }, what);
          rep = fs::opEnd();
          if (er == exAbandoned) return;
          threw = (er == exThrew);
@@ -845,8 +902,7 @@ struct Run
             msgs.push_back( m);
             Msg&  cur = msgs.back();
             const Files  b = snapshot();
-            celma::log::detail::LogMsg  lm( "c15.cpp", "harness", 9999);
-            ExecResult  er = guarded( [ &] { policy->writeMessage( lm, cur.text); }, what);
+            ExecResult  er = guarded( [ &] { writeSink( cur.text, 9999); }, what);
             if (er == exAbandoned) return;
             if (er == exThrew)
             {
@@ -861,7 +917,7 @@ struct Run
          }
          if (res.ok() && rolls_seen >= rolls_before + 2) st.probe( P_recovery_rolled_twice);
       }
-      policy.reset();
+      closeSink();
    }
 };
 
@@ -895,6 +951,7 @@ public:
       const long long  limit = counted ? cfg.range( 1, 5) : cfg.range( 8, 64);
       plan[ "limit"] = limit;
       plan[ "max_gen"] = cfg.range( 1, 4);
+      plan[ "wrapper"] = cfg.chance( 1, 4);
       Json  nm = Json::object();
       static const char* const  dirs[] = { "logs", "var/log", "a" };
       nm[ "dir"] = dirs[ cfg.below( 3)];
@@ -985,7 +1042,7 @@ public:
       Run  r( plan, st, trace);
       r.execute();
       fs::traceTo( nullptr);
-      r.policy.reset();
+      r.closeSink();
       const size_t  leaked = fs::closeLeaked();
       (void) leaked;
       st.state( (static_cast< uint64_t>( r.counted) << 24) | (static_cast< uint64_t>( r.limit & 0xffff) << 8)
